@@ -31,8 +31,8 @@ CLAIMED = {
    text="L0 transaction view: the full read API (get, scan, seek, re-seek, ranges, buckets, kv_pairs, counter, after-the-end probe) is issued after every single operation of a write transaction, in TLC-generated behaviours over tree-shape profiles and in random traces, and compared with KVOps!Do on the transaction's own view. BTree.tla leg (DESIGN.md 12.5): the rebalance / spill / cursor code transcribed operator by operator and model-checked (MC_BTree) over every short history on seed trees of up to three levels; every generated history is replayed into the real code against the reference map and the page structure found in the file is compared with the model's.",
    note="Trusted: TLC, exec.rs projection.", tech="TLA+ L0 spec + TLC; behaviour replay with read-back after every op; trace validation; transcribed B+tree model (BTree.tla) with exact structure conformance"),
  "C08": dict(cat="model_checking", ref="DESIGN.md 6 (C08)",
-   text="Cursor sub-machine of L0 (SeekResults allows either neighbour for an absent key; ranges for all bound kinds; filters; next() after exhaustion) model-checked (SeekSound, AllSorted) and bound by TLC-generated exhaustive query sets: every seek / re-seek key and every pair of bounds over the universe on empty, single-leaf, two- and three-level buckets, committed and mid-transaction.",
-   note="Trusted: TLC, exec.rs projection.", tech="TLA+ L0 spec + TLC; exhaustive query generation replayed on the real code"),
+   text="Cursor sub-machine of L0 (SeekResults allows either neighbour for an absent key; ranges for all bound kinds; filters; next() after exhaustion) model-checked (SeekSound, AllSorted) and bound by TLC-generated exhaustive query sets: every seek / re-seek key and every pair of bounds over the universe on empty, single-leaf, two- and three-level buckets, committed and mid-transaction. BTree.tla leg (DESIGN.md 12.5): the rebalance / spill / cursor code transcribed operator by operator and model-checked (MC_BTree) over every short history on seed trees of up to three levels; every generated history is replayed into the real code against the reference map and the page structure found in the file is compared with the model's.",
+   note="Trusted: TLC, exec.rs projection.", tech="TLA+ L0 spec + TLC; exhaustive query generation replayed on the real code; transcribed B+tree model (BTree.tla) with exact structure conformance"),
  "C10": dict(cat="model_checking", ref="DESIGN.md 6 (C10)",
    text="PageStore readers+crash configurations model-checked (Accounting, FLConsistent incl. Reopen/Recover; Release constrained by MustReleaseOK/ReleaseBoundOK; extension only without a fitting free run). Long cyclic workloads of the real code are validated step by step by Trace_Page (alloc / free / release / publish / header events) with growth gates at cycle markers; shorter decoded runs give exact per-commit accounting.",
    note=L1NOTE + " Growth gates are generous multiples; the exact step rules carry the claim.", tech="TLA+ L1 rules checked by TLC on long recorded runs"),
